@@ -99,11 +99,18 @@ def gen_case(seed, tier='quick'):
         elif r < 0.8 and inputs:
             ops.append({'op': 'set', 'who': 'M', 'target': rng.choice(inputs),
                         'value': worlds.enc(c04.new_value(rng))})
-        elif r < 0.9:
+        elif r < 0.86:
             ops.append({'op': 'eval_all', 'who': 'M'})
         else:
-            ops.append({'op': 'roundtrip', 'path': rng.choice(
-                ['/simfs/m.json', '/simfs/m.gz'])})
+            rt = {'op': 'roundtrip', 'path': rng.choice(
+                ['/simfs/m.json', '/simfs/m.gz'])}
+            if rng.random() < 0.5:
+                rt['fault'] = rng.choice([
+                    {'kind': 'enospc', 'after_bytes': rng.choice(
+                        [0, 10, 300, 2000])},
+                    {'kind': 'eio', 'at': 1},
+                    {'kind': 'interrupt', 'step': rng.randint(1, 500)}])
+            ops.append(rt)
     ex = {'op': 'extract'}
     if faulty and rng.random() < 0.35:
         ex['fault'] = {'kind': 'interrupt',
@@ -155,7 +162,9 @@ def gen_case(seed, tier='quick'):
         if evals and rng.random() < 0.5:
             ops[rng.choice(evals)]['fault'] = {
                 'kind': 'interrupt', 'frac': round(rng.uniform(0.05, 1.1), 3)}
-    knobs = {'fail_on': rng.choice([1, 2, 3]) if faulty else None}
+    knobs = {'fail_on': rng.choice([1, 2, 3]) if faulty else None,
+             'persistent_evaluators': rng.random() < 0.5,
+             'decoy': rng.random() < 0.2}
     return {'property': ID, 'seed': seed, 'knobs': knobs, 'world': world,
             'focus': focus, 'ops': ops}
 
@@ -196,8 +205,20 @@ def _run(case, fs):
     uf = UserFuncs(case['knobs'].get('fail_on'))
     inputs = {'M': dict(world['cells']), 'X': None}
 
+    keep = {}
+
     def evaluator(model):
-        return Evaluator(model, uf.namespace())
+        # either a new evaluator per call or one long-lived evaluator per
+        # model (whatever an evaluator keeps between calls then matters)
+        if not case['knobs'].get('persistent_evaluators'):
+            return Evaluator(model, uf.namespace())
+        if id(model) not in keep:
+            keep[id(model)] = (model, Evaluator(model, uf.namespace()))
+        return keep[id(model)][1]
+
+    if case['knobs'].get('decoy'):
+        worlds.run_decoy(world, UserFuncs(None).namespace())
+        bump('probe:decoy_model_first')
 
     def ev_out(model, target, at=None):
         st = Stepper(interrupt_at=at, max_steps=SAFETY_STEPS)
@@ -272,8 +293,31 @@ def _run(case, fs):
             log.append([seq, 'eval_all', who])
             sig.append(f'E{who}')
         elif kind == 'roundtrip':
+            f = op.get('fault')
+            wf, at = None, None
+            if f is not None:
+                if f['kind'] == 'interrupt':
+                    at = f['step']
+                elif f['kind'] == 'eio':
+                    wf = {'kind': 'eio', 'at': f['at']}
+                else:
+                    wf = {'kind': 'enospc', 'after_bytes': f['after_bytes']}
+            fs.reset_op(bufsize=64, write_fault=wf)
+            st = Stepper(interrupt_at=at, max_steps=SAFETY_STEPS)
+            with st:
+                o1 = outcome_of(M.persist_to_json_file, op['path'])
+            fired = list(fs.op_fired) + (
+                ['interrupt_in_persist'] if st.fired == 'interrupt' else [])
+            for k in fired:
+                bump(f'fault:{k}')
+                bump('faults_fired')
             fs.reset_op()
-            o1 = outcome_of(M.persist_to_json_file, op['path'])
+            if o1[0] != 'ok':
+                # the save failed: the original carries on as it is
+                bump('probe:failed_save_before_extract')
+                log.append([seq, 'roundtrip', o1[0], 'not restored'])
+                sig.append('r!')
+                continue
             new = Model()
             o2 = outcome_of(new.construct_from_json_file, op['path'],
                             build_code=True)
@@ -285,6 +329,9 @@ def _run(case, fs):
                 sig.append('R')
         elif kind == 'extract':
             before = dump_model(M)
+            before['compiled'] = sorted(
+                a for a, c in M.cells.items()
+                if c.formula is not None and c.formula.ast is not None)
             fault = op.get('fault')
             at = None
             if fault is not None:
@@ -306,6 +353,9 @@ def _run(case, fs):
             log.append([seq, 'extract', 'interrupted' if fired else out[0]])
             sig.append('x!' if fired else 'x')
             after = dump_model(M)
+            after['compiled'] = sorted(
+                a for a, c in M.cells.items()
+                if c.formula is not None and c.formula.ast is not None)
             if after != before:
                 viol = fail('extract-changed-original', seq,
                             interrupted=fired,
@@ -316,7 +366,11 @@ def _run(case, fs):
                 st = Stepper(max_steps=SAFETY_STEPS)
                 with st:
                     out = outcome_of(ModelCompiler.extract, M, focus)
-                if dump_model(M) != before:
+                again = dump_model(M)
+                again['compiled'] = sorted(
+                    a for a, c in M.cells.items()
+                    if c.formula is not None and c.formula.ast is not None)
+                if again != before:
                     viol = fail('extract-changed-original', seq,
                                 interrupted=False, after_interrupted=True)
                     break
